@@ -181,6 +181,7 @@ def main(argv=None):
         except subprocess.TimeoutExpired:
             p.kill()
             p.wait()
+            _rm_scratch_of(p.pid)
             harness_error = "worker %d exceeded the hard wall-clock limit (%ds): inconclusive, not a violation" % (spec["idx"], hard)
         log.close()
         if not os.path.exists(spec["out"]):
@@ -208,6 +209,23 @@ def main(argv=None):
         print(harness_error)
         print("HARNESS-ERROR property=%s" % pid)
         return 2
+    # 3. coverage-guided stage (thorough tier, properties that opt in, atheris present)
+    fuzz_info = None
+    fuzz_runs = getattr(prop, "FUZZ_RUNS", 0) if args.tier == "thorough" else int(os.environ.get("VERIF_FUZZ_RUNS", "0") or 0)
+    if fuzz_runs and not harness_error:
+        fuzz_info = run_fuzz_stage(pid, fuzz_runs, seed_val, sorted(known_sigs | set(found)), outdir, env)
+        if fuzz_info.get("available"):
+            for k in ("evaluations", "subcases", "excluded_known"):
+                merged[k] += fuzz_info["stats"][k]
+            merged_nt.update(fuzz_info["stats"]["nontrivial"])
+            for c, n in fuzz_info["stats"]["classes"].items():
+                merged["classes"][c] = merged["classes"].get(c, 0) + n
+            for v in fuzz_info["violations"]:
+                sig = v["violation"]["sig"]
+                if sig not in found:
+                    v["violation"]["msg"] += " [found by the coverage-guided stage; not shrunk]"
+                    found[sig] = v
+    merged["fuzz"] = {k: v for k, v in (fuzz_info or {}).items() if k not in ("stats", "violations")}
     for sig, v in sorted(found.items()):
         viol = engine.Violation(**v["violation"])
         path = engine.write_replay(os.path.join(HERE, "out", "replays", pid), pid, v["case"], viol)
@@ -232,6 +250,57 @@ def main(argv=None):
     return 0
 
 
+def _rm_scratch_of(pid):
+    import glob as _glob
+    import shutil as _shutil
+    import tempfile as _tempfile
+    for root in {os.environ.get("VERIF_SCRATCH") or "/dev/shm", _tempfile.gettempdir()}:
+        for d in _glob.glob(os.path.join(root, "vf-%d-*" % pid)):
+            _shutil.rmtree(d, ignore_errors=True)
+
+
+def run_fuzz_stage(pid, runs, seed_val, known, outdir, env, procs=6):
+    """Run `procs` independent libFuzzer campaigns (python -m vf.fuzz) and merge what they report."""
+    deps = os.path.join(HERE, ".deps")
+    probe = subprocess.run([PYTHON, "-c", "import sys; sys.path.insert(0, %r); import atheris" % deps], capture_output=True)
+    if probe.returncode != 0:
+        return {"available": False, "note": "atheris not importable (setup.sh installs it into .deps from the offline wheelhouse); stage skipped"}
+    jobs = []
+    for i in range(procs):
+        out = os.path.join(outdir, "fuzz%d.json" % i)
+        log = open(os.path.join(outdir, "fuzz%d.log" % i), "w")
+        jobs.append((subprocess.Popen([PYTHON, "-m", "vf.fuzz", pid, "--runs", str(runs), "--seed", str(seed_val * 100 + i + 1),
+                                       "--out", out, "--known", ",".join(known)], stdout=log, stderr=subprocess.STDOUT, env=env, cwd=HERE), out, log))
+    from vf import engine
+    total = engine.Stats().to_json()
+    nt = set()
+    viols = []
+    runs_done = 0
+    errors = 0
+    for p, out, log in jobs:
+        try:
+            p.wait(timeout=3600)
+        except subprocess.TimeoutExpired:
+            p.kill()
+        log.close()
+        _rm_scratch_of(p.pid)       # libFuzzer leaves through _exit: the campaign cannot clean up after itself
+        if not os.path.exists(out):
+            continue
+        doc = json.load(open(out))
+        runs_done += doc["runs"]
+        errors += doc.get("harness_errors", 0)
+        for k in ("evaluations", "subcases", "excluded_known"):
+            total[k] += doc["stats"][k]
+        nt.update(doc["stats"]["nontrivial"])
+        for c, n in doc["stats"]["classes"].items():
+            total["classes"][c] = total["classes"].get(c, 0) + n
+        viols += doc["violations"]
+    total["nontrivial"] = sorted(nt)
+    return {"available": True, "engine": "atheris/libFuzzer over hypothesis.fuzz_one_input, torrentfile instrumented for coverage",
+            "campaigns": procs, "libfuzzer_runs_requested_each": runs, "cases_executed": runs_done, "harness_errors": errors,
+            "stats": total, "violations": viols}
+
+
 def write_evidence(prop, pid, tier, seed_val, merged, merged_nt, wall, nviol, nworkers):
     samples = merged["nt_samples"] + merged["samples"]
     cov = {
@@ -247,6 +316,8 @@ def write_evidence(prop, pid, tier, seed_val, merged, merged_nt, wall, nviol, nw
         "budget_exhausted": merged["budget_exhausted"],
         "workers": nworkers,
     }
+    if merged.get("fuzz"):
+        cov["coverage_guided_stage"] = merged["fuzz"]
     if hasattr(prop, "GRID_DESC") and merged["grid"]:
         cov["grid"] = prop.GRID_DESC.get(tier, "") if isinstance(prop.GRID_DESC, dict) else prop.GRID_DESC
     doc = {
